@@ -14,6 +14,7 @@ import sys
 import numpy as np
 
 from harness import alpha, core, gamma, lattice, shims, tlc, util
+from harness import spell
 
 INV = ["FinalIsCover", "NoOverlapWithinLevel", "LevelsSequential", "PoolOK", "Emit"]
 
@@ -74,7 +75,7 @@ def run_scenario(chk, sc, cfgseed, dtype, axes, flavour="sched", workers=None):
         n = nfiles[l]
         plan[l + 1] = sc["sched"][pos:pos + n]
         pos += n
-    argv = ["-v", ap["fields"][fi - 1], "-o", out, "-d", dtype, "-y", "-l", str(lim), src]
+    argv = ["-v", ap["fields"][fi - 1], "-o", out, "-d", dtype, "-y", "-l", str(lim), spell.of(src, cfgseed)[0]]
     try:
         with shims.pool_shim(shims.Scheduler(plan=plan, workers=workers), flavour), core.quiet():
             run_whip(argv)
